@@ -40,6 +40,9 @@ def cases(tier, seed):
         ]
     else:
         groups = [e1.family_members(2)[0], e1.family_members(2, base=disc)[0]]
+    # one-period models with -inf values at grid states (no feasible choice / only -inf feasible choices)
+    extra = [family.normalise(dict(family.BASE, T=1, **d)) for d in ({"cons": "tight"}, {"cons": "lower"}, {"cons": "tight", "e": 1}, {"cons": "lower", "filt": "none"})]
+    groups.append([(fv, 3) for fv in extra])
     for members in groups:
         for fv, dev in members:
             i = e1.fv_id(fv)
